@@ -87,6 +87,8 @@ class SimValue(SimObj):
 
 
 class SimManagerList(SimObj):
+    """Manager().list(): every proxy call is one atomic step on the shared list (vm.mlist_op). Natively only construction-time
+    use is allowed (extend / append of the initial content by the real constructor)."""
     kind = "mlist"
 
     def __init__(self, init=()):
@@ -94,6 +96,25 @@ class SimManagerList(SimObj):
         self.init = list(init)
         self.elem = None
         self.cap = None
+
+    def extend(self, xs):
+        self.init.extend(xs)
+
+    def append(self, x):
+        self.init.append(x)
+
+
+class SimStorageFiles(SimObj):
+    """The files of a TextFileStorage directory (vm.storage_file_op). A path and a handle are both represented by the number k
+    of the file; a file is a sequence of complete lines (one line = one integer tag, an offset = a line number), a read handle
+    has a position that is private to the process holding it, print(..., flush=True) appends one complete line."""
+    kind = "files"
+
+    def __init__(self, nfiles, maxlines, name="D"):
+        super().__init__()
+        self.name = name
+        self.nfiles = nfiles
+        self.maxlines = maxlines
 
 
 class SimManager(SimObj):
